@@ -132,3 +132,49 @@ def run(ctx):
                     guard, kind if not isinstance(kind, tuple) else "other", decl, ret),
                     "expected %s; a #[macro_use] or skipped item must never be reordered, and only extern crate / mod "
                     "declarations / use items are reorderable" % want, ["%s:%d" % (g.file, g.line)])
+    numeric_chunks_are_numbers(ctx, "R11-e")
+
+
+def numeric_chunks_are_numbers(ctx, rid):
+    """R11-e: the chunk iterator of the version sort never hands a run of digits on as text"""
+    from absint import explore, vkey, TooManyPaths
+    p, r = ctx.p, ctx.r
+    r.rule(rid, "sort::VersionChunkIter::parse_numeric_chunk returns Some(VersionChunk::Number{..}) on every path — never another "
+                "chunk kind, never the end of the iteration: version_sort orders "
+                "Number against Number by value and everything else by text, which is a consistent preorder only while no text "
+                "chunk starts with a digit (a digit run compared as text against `2` and `10` gives 1000… < 2 < 10 < 1000…)")
+    f = p.named("parse_numeric_chunk", within="sort::VersionChunkIter")
+    if f is None:
+        r.undecidable(rid, "VersionChunkIter::parse_numeric_chunk not found")
+        return
+    try:
+        paths = explore(f, pure=lambda c: True, max_paths=20000, max_visits=2)
+    except TooManyPaths as e:
+        r.undecidable(rid, str(e))
+        return
+    r.paths(rid, len(paths))
+    n = 0
+    for path in paths:
+        if path.end != "ret" or path.ret is None:
+            continue
+        ret = vkey(path.ret)
+        if ret.startswith("residual(") or ret == "None":
+            # the iterator ends here: everything after the digit run is ignored by version_sort, so names that differ only
+            # after it rank equal and keep their input order (the output then depends on the permutation)
+            n += 1
+            r.instance(rid, "parse_numeric_chunk → end of iteration", "violation", "%s:%d" % (f.file, f.line))
+            r.violation(rid, "parse_numeric_chunk can end the chunk iteration",
+                        "a path returns %s (a digit run that does not parse): version_sort stops comparing there, "
+                        "`a999…9b` and `a999…9a` rank equal and every permutation of them formats to itself" % short(ret)[:40],
+                        ["%s:%d" % (f.file, f.line)])
+            continue
+        n += 1
+        ok = ret.startswith("Some(Number(") or ret.startswith("Number(")
+        r.instance(rid, "parse_numeric_chunk → %s" % ret.split("(")[0 if not ret.startswith("Some(") else 1], "ok" if ok else "violation",
+                   "%s:%d" % (f.file, f.line))
+        if not ok:
+            r.violation(rid, "parse_numeric_chunk yields a chunk that is not a Number",
+                        "a run of digits is returned as %s: compared as text against ordinary numbers while those are compared by "
+                        "value among themselves, the 2024 ordering is no longer transitive and the sorted output depends on the "
+                        "input order" % short(ret)[:50], ["%s:%d" % (f.file, f.line)])
+    r.floor(rid, n, 1, "value-returning paths of parse_numeric_chunk")
